@@ -264,4 +264,23 @@ theorem red_ofInt (hm : IsModulus p m) (x : ℤ) : Red p m (ofInt p m x) := red_
 theorem phi_ofInt (hm : IsModulus p m) (x : ℤ) : φ p m (ofInt p m x) = φ p m (GFpX.fromInt p x) :=
   phi_mk hm (wf_fromInt x)
 
+/-! ### operands denoting the same field element give the same result -/
+
+theorem truediv_congr (hm : IsModulus p m) {a o1 o2 : Poly} (ha : WF p a) (h1 : WF p o1) (h2 : WF p o2)
+    (h : φ p m o1 = φ p m o2) : truediv p m a o1 = truediv p m a o2 := by
+  by_cases h0 : φ p m o1 = 0
+  · rw [(truediv_spec hm ha h1).1 h0, (truediv_spec hm ha h2).1 (by rw [← h]; exact h0)]
+  · obtain ⟨q, e, rq, hq⟩ := (truediv_spec hm ha h1).2 h0
+    obtain ⟨q', e', rq', hq'⟩ := (truediv_spec hm ha h2).2 (by rw [← h]; exact h0)
+    rw [e, e']; congr 1
+    apply phi_inj hm rq rq'
+    have : Fact (Irreducible (toPoly p m)) := ⟨hm.irr⟩
+    rw [← h] at hq'
+    exact mul_right_cancel₀ h0 (hq.trans hq'.symm)
+
+theorem mul_congr (hm : IsModulus p m) {a o1 o2 : Poly} (ha : WF p a) (h1 : WF p o1) (h2 : WF p o2)
+    (h : φ p m o1 = φ p m o2) : mul p m a o1 = mul p m a o2 := by
+  apply phi_inj hm (red_mul hm ha h1) (red_mul hm ha h2)
+  rw [phi_mul hm ha h1, phi_mul hm ha h2, h]
+
 end MpycV.ExtF
